@@ -18,6 +18,7 @@
  *   rtobj n sd        a type created at run time (new_root(Type, $S, $I, $(New..), $(Assign..), $(Cmp..), $(Hash..),
  *                     $(Show..), $(C_Int..))): objects in an Array (sorted) and as Table keys, $() objects of that
  *                     type, method()/type_method()/implements_method() on it, every object finalised exactly once
+ *   pool n keep       a type with its own Alloc instance (8-cell pool): new / del of n objects, `keep` of them held a while
  *   regs rounds base  six objects held only in locals (registers at -O1+) while non-inlined helpers allocate garbage
  *   gcl n churn       containers held only in local variables of this routine while `churn` garbage objects are
  *                     allocated (collections happen in the collector builds), then read back
@@ -267,6 +268,50 @@ static void r_gcl(long* v, int nv) {
   del(a); del(l); del(t); del(r); del(u); del(b); del(str);
 }
 
+/* ---- pool --------------------------------------------------------------------------------------------- */
+/* a user type with its own Alloc instance (a pool of 8 cells): objects are created with new and released with del;
+ * every release must run the destructor and hand the cell back, so the pool never runs dry */
+struct PoolT { int64_t v; };
+#define POOLN 8
+#define POOLC (sizeof(struct Header) + sizeof(struct PoolT))
+static char pool_mem[POOLN][64]; static int pool_used[POOLN];
+static long pool_allocs, pool_deallocs, pool_dtors, pool_dry;
+static var PoolT;
+static var PoolT_Alloc(void) {
+  for (int i = 0; i < POOLN; i++) {
+    if (not pool_used[i]) {
+      pool_used[i] = 1; pool_allocs++;
+      memset(pool_mem[i], 0, sizeof pool_mem[i]);
+      return header_init(pool_mem[i], PoolT, AllocHeap);
+    }
+  }
+  pool_dry++;
+  return header_init(calloc(1, 64), PoolT, AllocHeap);     /* pool exhausted: never happens when del works */
+}
+static void PoolT_Dealloc(var self) {
+  char* c = (char*)self - sizeof(struct Header);
+  for (int i = 0; i < POOLN; i++) { if (c is pool_mem[i]) { pool_used[i] = 0; pool_deallocs++; return; } }
+  pool_deallocs++; free(c);
+}
+static void PoolT_New(var self, var args) { ((struct PoolT*)self)->v = c_int(get(args, $I(0))); }
+static void PoolT_Del(var self) { pool_dtors++; }
+static var PoolT = Cello(PoolT, Instance(Alloc, PoolT_Alloc, PoolT_Dealloc), Instance(New, PoolT_New, PoolT_Del));
+static void r_pool(long* v, int nv) {
+  long n = v[0], keep = v[1] % POOLN;
+  if (sizeof pool_mem[0] < POOLC) { harness_bug("pool cell too small"); }
+  pool_allocs = pool_deallocs = pool_dtors = pool_dry = 0;
+  memset(pool_used, 0, sizeof pool_used);
+  var held[POOLN]; long nh = 0; int64_t sum = 0;
+  for (long i = 0; i < n; i++) {
+    var x = new(PoolT, $I(i * 7));
+    sum += ((struct PoolT*)x)->v;
+    if (nh < keep) { held[nh++] = x; } else { del(x); }
+  }
+  for (long i = 0; i < nh; i++) { sum += ((struct PoolT*)held[i])->v; del(held[i]); }
+  int inuse = 0; for (int i = 0; i < POOLN; i++) { inuse += pool_used[i]; }
+  OUT("sum=%" PRId64 " allocs=%ld deallocs=%ld dtors=%ld dry=%ld inuse=%d", sum, pool_allocs, pool_deallocs, pool_dtors, pool_dry, inuse);
+}
+
 /* ---- regs --------------------------------------------------------------------------------------------- */
 /* six collected objects kept alive in plain local variables (and nowhere else) while small non-inlined helpers allocate
  * garbage, so that collections run while the six are live: at -O1 and above such locals sit in callee-saved registers
@@ -434,7 +479,7 @@ static void r_thr(long* v, int nv) {
 static struct { const char* name; void (*f)(long*, int); int nargs; } ROUTINES[] = {
   {"tup", r_tup, 7}, {"each", r_each, 3}, {"views", r_views, 5}, {"exc", r_exc, 2}, {"fmt", r_fmt, 3},
   {"rtobj", r_rtobj, 2}, {"gcl", r_gcl, 2}, {"stk", r_stk, 2}, {"call", r_call, 2}, {"meth", r_meth, 1},
-  {"lock", r_lock, 1}, {"thr", r_thr, 2}, {"regs", r_regs, 2}, {NULL, NULL, 0}
+  {"lock", r_lock, 1}, {"thr", r_thr, 2}, {"regs", r_regs, 2}, {"pool", r_pool, 2}, {NULL, NULL, 0}
 };
 
 int main(int argc, char** argv) {
